@@ -16,6 +16,8 @@ import Logrange.Generated.C11
   regenerated from the source → same answers
 * `queryreq <rpc|backend> <wt> <reqLimit> <fuel> <visible> <future>*` — the whole request with the `Limit` the client sent:
   clamp to the regenerated `QueryMaxLimit`, comparison value of the wait condition as regenerated per path → same answers
+* `selectstream <stored> <tail|n> <gap:during>*` — the client loop `api.Select` (stream mode) with the loop fact regenerated from
+  api/client.go → the global indices the handler receives, `-` if none
 * `queryempty <wt> <lim> <fuel>` — the empty cursor as the source defines it now → same answers
 * `eofpos <idx> <c1> <c2>` → `eof <pos>` | `rec <idx>`
 -/
@@ -104,6 +106,12 @@ def handle (u : Unit) (toks : List String) : Unit × String :=
     let ls : LimitShape := if path == "rpc" then ⟨Logrange.Generated.C11.rpcLimitShape.1, Logrange.Generated.C11.rpcLimitShape.2⟩
       else ⟨Logrange.Generated.C11.backendLimitShape.1, Logrange.Generated.C11.backendLimitShape.2⟩
     (u, showQ (queryRequest k ls Logrange.Generated.C11.queryMaxLimit scriptCur (nat wt) (nat lim) (nat fuel) (parseNats vis, futs.map parseFuture)))
+  | "selectstream" :: stored :: pos :: rounds =>
+    let rp : ReqPos := if pos == "tail" then .tail else .at (nat pos)
+    let rs : List Round := rounds.map (fun t => match t.splitOn ":" with
+      | [g, d] => ⟨nat g, nat d⟩
+      | _ => ⟨0, 0⟩)
+    (u, showNats (selectStream Logrange.Generated.C11.clientSelectTakesNextRequest (nat stored) rp rs))
   | ["queryempty", wt, lim, fuel] =>
     (u, showQ (queryLoop (emptyCur Logrange.Generated.C11.emptyCursorWaitReturnsAtOnce) (nat wt) (nat lim) (nat fuel) (nat lim) () []))
   | ["eofpos", i, c1, c2] =>
